@@ -50,7 +50,12 @@ def run(R):
         for c in order:
             if by_klass[c]:
                 picked.append(by_klass[c].pop(0))
+    all_accepted = list(accepted)
     accepted = picked
+    # the programs whose SDK depends on an extra crate go through the histories too
+    deps_first = [o for o in accepted if o["klass"] == "deps"][:1]
+    accepted = deps_first + [o for o in accepted if o not in deps_first]
+    n_foreign = 0
     k = 4 if R.tier == "quick" else 30
     n_cold = 1 if R.tier == "quick" else 4
     runs, n_viol, hist = 0, 0, []
@@ -111,6 +116,25 @@ def run(R):
         s7 = step("update-restores-diagnostics", True, None)
         if s7[dot] is None or s7[dot][0] != s0[dot][0]:
             viol("diagnostics file regenerated with different bytes", o, {"first": s0, "now": s7})
+        # 7. same project, sources changed between two runs: the directory was last generated from ANOTHER blueprint of the
+        #    workspace (preferably one whose SDK has a different set of dependencies); generating this one again must give
+        #    the bytes of its first generation
+        cands = [x for x in all_accepted if x["workspace"] == o["workspace"] and x["name"] != m]
+        cands.sort(key=lambda x: ((x["klass"] == "deps") == (o["klass"] == "deps"), x["name"]))
+        if cands:
+            other = cands[0]
+            rf = ws.pavexc(other["name"], dump=False, out_dir=os.path.join("sdk", m))
+            runs += 1
+            steps.append("foreign-generation(%s)" % other["name"])
+            if rf["rc"] != 0:
+                viol("generating `%s` into the output directory of `%s` failed (rc=%s)" % (other["name"], m, rf["rc"]), o, {"pavexc_output_tail": rf["out"][-1500:]})
+            s9 = step("regenerate-after-foreign-generation", True, None)
+            diff = [p for p in paths[:3] if s9[p] is None or s9[p][0] != s0[p][0]]
+            if diff:
+                viol("output depends on what was generated into the directory before: after generating `%s` (%s) there and then `%s` again, %s differ from the first generation" % (
+                    other["name"], other["klass"], m, [os.path.relpath(p, ws.root) for p in diff]), o,
+                    {"history": list(steps), "first": s0, "now": s9, "manifest_now": open(paths[0]).read(), "other_program": other["name"], "other_source": other["src"]})
+            n_foreign += 1
         # 6. cold documentation cache (and, for the next program, a cache filled by this one = foreign history)
         if idx < n_cold:
             cold = os.path.join(e2e_stage.SCRATCH, "home-cold-%d" % os.getpid())
@@ -130,6 +154,7 @@ def run(R):
                         viol("run with a cache filled by another program's run changed the output", o2, {"before": b2, "after": e2e_stage.snapshot(p2)})
             shutil.rmtree(cold, ignore_errors=True)
         hist.append({"program": m, "steps": steps})
+    R.coverage["foreign_generation_histories"] = n_foreign
     R.coverage["programs"] = min(k, len(accepted))
     R.coverage["evaluations"] = runs
     R.coverage["distinct_nontrivial"] = len(hist) * 5
